@@ -14,7 +14,7 @@ def all_builtin_model_class():
     return Model.create_class_from_megacomplexes([get_megacomplex(n) for n in names])
 
 
-def random_decay_scheme(rng, max_nfev=6):
+def random_decay_scheme(rng, max_nfev=6, expr_chain=False):
     from glotaran.parameter import Parameters
     from glotaran.project import Scheme
     from glotaran.simulation import simulate
@@ -41,7 +41,18 @@ def random_decay_scheme(rng, max_nfev=6):
     pdict = {"k": [[str(i + 1), r] for i, r in enumerate(rates)] + [{"non-negative": True}]}
     if irf:
         pdict["irf"] = [["center", 0.4], ["width", 0.15]]
+    if expr_chain:
+        # k.i = $k.1 * $aux.r<i>, aux.r<i> = $aux.base * c_i: expressions referencing expression
+        # parameters that are declared LATER (group aux comes after group k)
+        base = 1.0
+        cs = [rates[i] / rates[0] for i in range(n)]
+        pdict = {"k": [["1", rates[0], {"non-negative": True}]]
+                 + [[str(i + 1), {"expr": f"$k.1 * $aux.r{i + 1}"}] for i in range(1, n)],
+                 "aux": [[f"r{i + 1}", {"expr": f"$aux.base * {cs[i]!r}"}] for i in range(1, n)] + [["base", base]]}
+        if irf:
+            pdict["irf"] = [["center", 0.4], ["width", 0.15]]
     true_p = Parameters.from_dict(pdict)
+    true_p.update_parameter_expression()
     data = {}
     nt = int(rng.integers(25, 70))
     for d in range(nds):
@@ -52,8 +63,14 @@ def random_decay_scheme(rng, max_nfev=6):
         ds = simulate(model, f"ds{d + 1}", true_p, {"time": t, "spectral": g}, clp)
         ds["data"] = ds.data + 0.02 * rng.standard_normal(ds.data.shape)
         data[f"ds{d + 1}"] = ds
-    start = {k: ([[l, v * float(rng.uniform(0.8, 1.25))] for l, v in vals[:-1]] + [vals[-1]] if isinstance(vals[-1], dict)
+    start = pdict if expr_chain else {k: ([[l, v * float(rng.uniform(0.8, 1.25))] for l, v in vals[:-1]] + [vals[-1]] if isinstance(vals[-1], dict)
                  else [[l, v * float(rng.uniform(0.9, 1.1))] for l, v in vals]) for k, vals in pdict.items()}
+    if expr_chain:
+        import copy as _copy
+
+        start = _copy.deepcopy(pdict)
+        start["k"][0][1] = rates[0] * float(rng.uniform(0.8, 1.25))
+        start["aux"][-1][1] = float(rng.uniform(0.85, 1.15))
     scheme = Scheme(model=model, parameters=Parameters.from_dict(start), data=data,
                     maximum_number_function_evaluations=max_nfev)
     desc = {"kind": kind, "n_comp": n, "irf": irf, "residual_function": "nnls" if nnls else "vp", "n_datasets": nds,
